@@ -36,6 +36,7 @@ def cases(draw, tier="quick"):
     P["gets"] = draw(st.sampled_from(["early", "tape", "tape", "late", "after"]))
     P["get_after_closed"] = True
     P["hs_slow"] = draw(st.sampled_from([[False, False], [False, False], [True, False], [True, True]]))
+    P["hs_fail_first"] = draw(st.sampled_from([[False, False], [False, False], [False, False], [True, False], [False, True]]))
     if draw(st.integers(0, 2)) == 0:
         P["closes"] = [[draw(st.integers(0, 1)), draw(st.sampled_from([None, "halfopen", "halfopen", "code", "key", "verifier", "versions"]))]]
         if P["closes"][0][1] == "halfopen":
